@@ -52,7 +52,7 @@ mutant('m14_pause_drift', 'C04', 'break',
   ('klog/app/cli/pause.go', 'uncapturedIncrement := diffInMinutes(ctx.Now(), start) - minsCaptured', 'uncapturedIncrement := diffInMinutes(ctx.Now(), start) - minsCaptured\n\t\tif uncapturedIncrement > 90 {\n\t\t\tuncapturedIncrement = 90\n\t\t}'))
 mutant('m15_new_record_position', 'C04', 'break',
   ('klog/parser/reconciling/creator.go', 'if len(rs)-1 == i || (atDate.IsAfterOrEqual(r.Date()) && !atDate.IsAfterOrEqual(rs[i+1].Date())) {', 'if len(rs)-1 == i || (atDate.IsAfterOrEqual(r.Date()) && !rs[i+1].Date().IsAfterOrEqual(atDate) == false && !atDate.IsAfterOrEqual(rs[i+1].Date())) || (i+1 < len(rs) && rs[i+1].Date().IsEqualTo(atDate) && atDate.IsAfterOrEqual(r.Date())) {'))
-mutant('m16_atomic_write_rename_error_ignored', 'C05', 'break',
+mutant('m16_atomic_write_rename_error_ignored', 'C04', 'break',
   ('klog/app/file.go', '\terr := os.WriteFile(target.Path(), []byte(contents), 0644)\n', '\ttmp := target.Path() + ".tmp~"\n\terr := os.WriteFile(tmp, []byte(contents), 0644)\n\tif err == nil {\n\t\t_ = os.Rename(tmp, target.Path())\n\t}\n'))
 mutant('m17_manual_write_error_ignored', 'C05', 'break',
   ('klog/app/file.go', '\terr := os.WriteFile(target.Path(), []byte(contents), 0644)\n', '\tf, err := os.OpenFile(target.Path(), os.O_WRONLY|os.O_CREATE|os.O_TRUNC, 0644)\n\tif err == nil {\n\t\t_, _ = f.WriteString(contents)\n\t\terr = f.Close()\n\t}\n'))
